@@ -58,7 +58,18 @@ func gBytes(t *rapid.T, label string) []byte {
 
 func gId(t *rapid.T, label string) *swap.SwapId {
 	var id swap.SwapId
-	copy(id[:], rapid.SliceOfN(rapid.Byte(), 32, 32).Draw(t, label))
+	// the requesting peer chooses the id: degenerate values are legal ids
+	switch rapid.IntRange(0, 9).Draw(t, label+"-shape") {
+	case 0: // all zero
+	case 1:
+		for i := range id {
+			id[i] = 0xff
+		}
+	case 2:
+		id[rapid.IntRange(0, 31).Draw(t, label+"-byte")] = 1
+	default:
+		copy(id[:], rapid.SliceOfN(rapid.Byte(), 32, 32).Draw(t, label))
+	}
 	return &id
 }
 
